@@ -169,9 +169,14 @@ func (d *director) hook(name string, args ...any) {
 	for _, a := range args {
 		switch v := a.(type) {
 		case int64:
-			if ev.MsgID == 0 && (name == "send.msgid" || name == "send.written") {
+			switch {
+			case name == "salt.adopted" && ev.Salt == 0 && ev.MsgID == 0:
+				ev.Salt = v // first argument: the new salt; second: the rejected msg_id
+			case name == "salt.adopted":
 				ev.MsgID = v
-			} else {
+			case ev.MsgID == 0:
+				ev.MsgID = v
+			default:
 				ev.Salt = v
 			}
 		case tl.Object:
@@ -428,6 +433,22 @@ func (e *Env) runRPC() error {
 		e.Res.Session = e.ReadSession()
 		e.Finish()
 	}
+	// the server learns which key and session a connection belongs to from the client's first message
+	{
+		cr := e.Call(&telegram.AccountCheckUsernameParams{Username: "probe0"}, e.stepPatience())
+		cr.Tag, cr.Kind = 0, "probe"
+		st.results = append(st.results, cr)
+		if !cr.OK {
+			e.Res.Notes = append(e.Res.Notes, fmt.Sprintf("warm-up request failed: %+v", cr))
+			if cr.Hung {
+				e.Res.Stall = inspectStall(1)
+			}
+			e.Res.Calls = st.snapshot()
+			e.Res.Hooks = st.dir.snapshot()
+			e.Res.Session = e.ReadSession()
+			e.Finish()
+		}
+	}
 	for i, step := range spec.Steps {
 		switch step.Op {
 		case "call":
@@ -509,6 +530,8 @@ func (e *Env) runRPC() error {
 			if c != nil {
 				c.SetSalt(step.Salt)
 				e.Srv.LogNote("rotate", c, 0, fmt.Sprintf("salt=%d", step.Salt))
+			} else {
+				e.Res.Notes = append(e.Res.Notes, fmt.Sprintf("step %d: no connection to rotate on", i))
 			}
 		case "new-session":
 			c := st.conn(step.Server)
